@@ -88,6 +88,8 @@ package types
 //@   ensures [chainid] t != nil ==> result.ChainId != nil && *result.ChainId == t.ChainId
 //@   ensures [target]  t != nil && len(t.Target) != 0 ==> result.Target != nil && *result.Target == t.Target
 //@   ensures [data]    t != nil && len(t.Data) != 0 ==> result.Data != nil && *result.Data == t.Data
+//@   ensures [hash]    t != nil ==> bytes(result.Hash) == bytes(t.Hash)
+//@   ensures [subhash] t != nil ==> bytes(result.SubHash) == bytes(t.SubHash)
 //@   modifies nothing
 
 //@ func BlockHeaderToPb
